@@ -252,28 +252,62 @@ def c6(repo: Repo) -> RuleResult:
     for lang, (rel, cn) in FORMATTERS.items():
         c = m.cls(cn, rel)
         mod = m.mods[c.rel]
-        # bool
+        # bool / int literals: values returned on the paths for a true / false / integer argument
+        from .flows import compiler_flow
+        from .normal import V, show
+        from .pyflow import str_of, tpl_shape
+
         fb = m.lookup(c, "format_bool_value")
         if fb is None:
             res.unsure(f"C6: {cn}.format_bool_value vanished")
         else:
-            rets = [n for n in ast.walk(fb.node) if isinstance(n, ast.Return) and isinstance(n.value, ast.Constant)]
-            got_true = [r.value.value for r in rets if any(truth and src_of(t) == "value" for t, truth in facts_at(r, fb.node))]
-            got_false = [r.value.value for r in rets if not any(src_of(t) == "value" and truth for t, truth in facts_at(r, fb.node))]
+            param = fb.node.args.args[1].arg if len(fb.node.args.args) > 1 else "value"
+            got: Dict[bool, List[Any]] = {True: [], False: []}
+            for tv in (True, False):
+                def dec(key: Any, tv: bool = tv) -> Optional[bool]:
+                    if key[0] == "truthy" and show(key[1]) == "value":
+                        return tv
+                    if key[0] in ("isbool", "eqbool") and "value" in (show(key[1]), show(key[2])):
+                        other = key[1] if show(key[2]) == "value" else key[2]
+                        cv = other.const_value()
+                        return None if cv is None else (bool(cv) == tv)
+                    return None
+
+                try:
+                    for p_ in compiler_flow(repo, cn, rel, decide=dec).run(fb.node, {"self": V("self"), param: V("value")}):
+                        if p_.done == "return" and p_.ret is not None:
+                            got[tv].append(str_of(p_.ret) if str_of(p_.ret) is not None else "{" + show(p_.ret) + "}")
+                except Inconclusive as e:
+                    res.unsure(f"C6: {fb.qual}: {e}")
+            got_true, got_false = sorted(set(got[True])), sorted(set(got[False]))
             res.inst(part=lang, where=fb.qual, true=got_true, false=got_false)
             if got_true != [BOOL_LIT[lang][0]] or got_false != [BOOL_LIT[lang][1]]:
-                f = Finding("C6", fb.rel, fb.node.lineno, fb.qual, f"true->{got_true} false->{got_false}", f"boolean literals must be {BOOL_LIT[lang]}", witness="const FLAG = true", tag=f"{cn}:bool")
-                f.part = lang
-                res.bad(f)
+                if all("{" not in x for x in got_true + got_false) and got_true and got_false:
+                    f = Finding("C6", fb.rel, fb.node.lineno, fb.qual, f"true->{got_true} false->{got_false}", f"boolean literals must be {BOOL_LIT[lang]}", witness="const FLAG = true", tag=f"{cn}:bool")
+                    f.part = lang
+                    res.bad(f)
+                else:
+                    res.unsure(f"C6: {fb.qual}: returned values true->{got_true} false->{got_false} not recognised")
         # int
         fi = m.lookup(c, "format_int_value")
         if fi is not None:
-            rets = [src_of(n.value) for n in ast.walk(fi.node) if isinstance(n, ast.Return) and n.value is not None]
-            res.inst(part=lang, where=fi.qual, returns=rets)
-            if not rets or not all(r in ("'{0}'.format(value)", "str(value)", "f'{value}'", "'{}'.format(value)", "'%d' % value", "repr(value)") for r in rets):
-                f = Finding("C6", fi.rel, fi.node.lineno, fi.qual, str(rets), "integers must be emitted in plain decimal", witness="const N = 255", tag=f"{cn}:int")
-                f.part = lang
-                res.bad(f)
+            param = fi.node.args.args[1].arg if len(fi.node.args.args) > 1 else "value"
+            shapes = []
+            try:
+                for p_ in compiler_flow(repo, cn, rel, pure=("repr", "hex", "oct", "bin")).run(fi.node, {"self": V("self"), param: V("value")}):
+                    if p_.done == "return" and p_.ret is not None:
+                        shapes.append(tpl_shape(p_.ret) or "{" + show(p_.ret) + "}")
+            except Inconclusive as e:
+                res.unsure(f"C6: {fi.qual}: {e}")
+            shapes = sorted(set(shapes))
+            res.inst(part=lang, where=fi.qual, returns=shapes)
+            if not shapes or not all(r in ("{value}", "{repr(value)}") for r in shapes):
+                if any(x in r for r in shapes for x in ("hex(", "oct(", "bin(", ":x}", ":o}", ":b}", ":X}")) or any("{" not in r for r in shapes):
+                    f = Finding("C6", fi.rel, fi.node.lineno, fi.qual, str(shapes), "integers must be emitted in plain decimal", witness="const N = 255", tag=f"{cn}:int")
+                    f.part = lang
+                    res.bad(f)
+                else:
+                    res.unsure(f"C6: {fi.qual}: returned shapes {shapes} not recognised as plain decimal")
         # string: taint value -> quoted template
         fs = m.lookup(c, "format_str_value")
         if fs is None:
@@ -294,55 +328,121 @@ def c6(repo: Repo) -> RuleResult:
                     res.bad(f)
                 elif verdict == "unknown":
                     res.unsure(f"C6: {fs.qual}: {why}")
-    # format_value dispatch: bool before int
+    # format_value dispatch: which literal formatter receives a bool / int / str value
+    from .flows import compiler_flow
+    from .normal import V, show
+    from .pyflow import single_atom
+
     fv = m.func("renderer/formatter.py", "Formatter.format_value")
-    chain = sorted([(n.lineno, src_of(n.test), src_of(n.body[0])) for n in ast.walk(fv.node) if isinstance(n, ast.If)])
-    tests = [(t, b) for _, t, b in chain]
-    res.inst(part="common", where=fv.qual, chain=tests)
-    want = {("value is True or value is False", "return self.format_bool_value(value)"), ("isinstance(value, str)", "return self.format_str_value(value)"), ("isinstance(value, int)", "return self.format_int_value(value)")}
-    idx = {t: i for i, (t, _) in enumerate(tests)}
-    if set(tests) != want or idx.get("value is True or value is False", 9) > idx.get("isinstance(value, int)", -1):
-        f = Finding("C6", fv.rel, fv.node.lineno, fv.qual, str(tests), "format_value must dispatch booleans before integers and each kind to its own literal formatter", witness="const FLAG = true emitted as 1 / True", tag="format_value")
-        f.part = "common"
-        res.bad(f)
-    # BlockBindConstant properties
-    for prop, want_ret in (("constant_value", "self.formatter.format_value(self.d.value)"), ("constant_value_type", "self.formatter.format_constant_type(self.d)"), ("constant_name", "self.formatter.format_constant_name(self.d)")):
-        fp = m.func("renderer/block.py", f"BlockBindConstant.{prop}")
-        rets = [src_of(n.value) for n in ast.walk(fp.node) if isinstance(n, ast.Return) and n.value is not None]
-        res.inst(part="common", where=fp.qual, returns=rets)
-        if rets != [want_ret]:
-            f = Finding("C6", fp.rel, fp.node.lineno, fp.qual, str(rets), f"{prop} must be {want_ret}", tag=f"BlockBindConstant.{prop}")
+    vparam = fv.node.args.args[1].arg if len(fv.node.args.args) > 1 else "value"
+    routed: Dict[str, List[str]] = {}
+    for kind in ("true", "false", "int", "str"):
+        def dec(key: Any, kind: str = kind) -> Optional[bool]:
+            if key[0] == "isinstance" and show(key[1]) == "value":
+                names = set(key[2])
+                if kind in ("true", "false"):
+                    return bool(names & {"bool", "int"})
+                return kind in names
+            if key[0] in ("isbool", "eqbool") and "value" in (show(key[1]), show(key[2])):
+                other = key[1] if show(key[2]) == "value" else key[2]
+                cv = other.const_value()
+                if cv is None:
+                    return None
+                if kind in ("true", "false"):
+                    return bool(cv) == (kind == "true")
+                if kind == "str":
+                    return False
+                return False if key[0] == "isbool" else None  # an int may == True
+            return None
+
+        outs = []
+        try:
+            for p_ in compiler_flow(repo, "Formatter", "renderer/formatter.py", decide=dec, primitives=("format_bool_value", "format_int_value", "format_str_value")).run(fv.node, {"self": V("self"), vparam: V("value")}):
+                if p_.done == "return" and p_.ret is not None:
+                    a_ = single_atom(p_.ret)
+                    outs.append(a_[1] if a_ is not None and a_[0] == "mcall" and [show(x) for x in a_[2]] == ["self", "value"] else show(p_.ret))
+                elif p_.done == "raise":
+                    outs.append("<raise>")
+        except Inconclusive as e:
+            res.unsure(f"C6: {fv.qual}: {e}")
+        routed[kind] = sorted(set(outs))
+    res.inst(part="common", where=fv.qual, routed=routed)
+    want_route = {"true": ["format_bool_value"], "false": ["format_bool_value"], "int": ["format_int_value"], "str": ["format_str_value"]}
+    if routed != want_route:
+        wrong = {k: v for k, v in routed.items() if v != want_route[k]}
+        known = {"format_bool_value", "format_int_value", "format_str_value", "<raise>"}
+        if all(len(v) == 1 and v[0] in known for v in wrong.values()):
+            f = Finding("C6", fv.rel, fv.node.lineno, fv.qual, str(routed), f"format_value must dispatch booleans before integers and each kind to its own literal formatter (got {wrong})", witness="const FLAG = true emitted as 1 / True", tag="format_value")
             f.part = "common"
             res.bad(f)
+        else:
+            res.unsure(f"C6: {fv.qual}: routing {wrong} not recognised")
+    # BlockBindConstant properties
+    from .rules_d3 import _ret_shapes
+
+    for prop, want_ret in (("constant_value", "{self.formatter.format_value(self.d.value)}"), ("constant_value_type", "{self.formatter.format_constant_type(self.d)}"), ("constant_name", "{self.formatter.format_constant_name(self.d)}")):
+        fp = m.func("renderer/block.py", f"BlockBindConstant.{prop}")
+        try:
+            rets = _ret_shapes(repo, "BlockBindConstant", "renderer/block.py", prop)
+        except Inconclusive as e:
+            res.unsure(f"C6: {fp.qual}: {e}")
+            continue
+        res.inst(part="common", where=fp.qual, returns=rets)
+        if rets != [want_ret]:
+            if len(rets) == 1 and rets[0].startswith("{self.formatter.format_") and rets[0] != want_ret:
+                f = Finding("C6", fp.rel, fp.node.lineno, fp.qual, str(rets), f"{prop} must be {want_ret[1:-1]}", tag=f"BlockBindConstant.{prop}")
+                f.part = "common"
+                res.bad(f)
+            else:
+                res.unsure(f"C6: {fp.qual}: returns {rets}")
     # emission templates
+    from .emit import block_flow, emitted
+
     for lang, relsfx, cn, want_tpl in (
         ("c", "impls/c/renderer_h.py", "BlockConstant", "#define {self.constant_name} {self.constant_value}"),
         ("go", "impls/go/renderer.py", "BlockConstant", "const {self.constant_name} {self.constant_value_type} = {self.constant_value}"),
         ("py", "impls/py/renderer.py", "BlockConstant", "{self.constant_name}: {self.constant_value_type} = {self.constant_value}"),
     ):
-        mod = m.mod(relsfx)
-        c = mod.classes.get(cn)
-        if c is None:
-            res.unsure(f"C6: {relsfx}:{cn} vanished")
+        try:
+            c = m.cls(cn, relsfx)
+            frel, fcn = FORMATTERS[lang]
+            flow = block_flow(repo, cn, relsfx, fcn, frel, {}, keep=("format_value", "format_constant_type", "format_constant_name", "format_comment"))
+            rfn = m.lookup(c, "render")
+            if rfn is None:
+                raise Inconclusive(f"{cn}.render not found")
+            ems, unfolded, ok = emitted(flow, rfn.node)
+        except Inconclusive as e:
+            res.unsure(f"C6: {relsfx}:{cn}: {e}")
             continue
-        tpls = [_fstring_shape(n) for n in ast.walk(c.node) if isinstance(n, ast.JoinedStr)]
-        res.inst(part=lang, where=f"{cn}", templates=tpls)
-        if want_tpl not in tpls:
-            f = Finding("C6", mod.rel, c.node.lineno, cn, str(tpls), f"constant emission template must be `{want_tpl}`", tag=f"{lang}:BlockConstant")
-            f.part = lang
-            res.bad(f)
+        lines = sorted({t for e_ in ems for _, t in e_})
+        res.inst(part=lang, where=f"{cn}", templates=lines)
+        sq = lambda x: "".join(x.split())
+        if not any(sq(want_tpl) == sq(t) for t in lines):
+            cand = [t for t in lines if "constant_value}" in t or "constant_name}" in t]
+            if cand and all(t.count("{") == t.count("{self.constant_") for t in cand):
+                f = Finding("C6", m.mod(relsfx).rel, c.node.lineno, cn, str(cand), f"constant emission template must be `{want_tpl}`", witness="const N = 255 emitted under the wrong name / with the wrong value", tag=f"{lang}:BlockConstant")
+                f.part = lang
+                res.bad(f)
+            else:
+                res.unsure(f"C6: {cn} ({lang}): emitted lines {lines} not recognised")
     # value type names
     for lang, want in (("go", {"format_int_value_type": "int", "format_string_value_type": "string", "format_bool_value_type": "bool"}), ("py", {"format_int_value_type": "int", "format_string_value_type": "str", "format_bool_value_type": "bool"})):
         rel, cn = FORMATTERS[lang]
         c = m.cls(cn, rel)
         for meth, val in want.items():
-            f2 = c.methods.get(meth)
-            got = [n.value.value for n in ast.walk(f2.node) if isinstance(n, ast.Return) and isinstance(n.value, ast.Constant)] if f2 else None
+            f2 = m.lookup(c, meth)
+            try:
+                got = _ret_shapes(repo, cn, rel, meth) if f2 is not None and f2.cls is c else ([n.value.value for n in ast.walk(f2.node) if isinstance(n, ast.Return) and isinstance(n.value, ast.Constant)] if f2 else None)
+            except Inconclusive:
+                got = None
             res.inst(part=lang, where=f"{cn}.{meth}", returns=got)
             if got != [val]:
-                f = Finding("C6", c.rel, f2.node.lineno if f2 else 0, f"{cn}.{meth}", str(got), f"must return {val!r}", tag=f"{cn}.{meth}")
-                f.part = lang
-                res.bad(f)
+                if got and all("{" not in str(g) for g in got):
+                    f = Finding("C6", c.rel, f2.node.lineno if f2 else 0, f"{cn}.{meth}", str(got), f"must return {val!r}", tag=f"{cn}.{meth}")
+                    f.part = lang
+                    res.bad(f)
+                else:
+                    res.unsure(f"C6: {cn}.{meth}: returns {got}")
     return res
 
 
